@@ -6,3 +6,4 @@ import CnbVerif.Props.C01
 #print axioms CnbVerif.C01.stepOk_empty_is_empty
 #print axioms CnbVerif.C01.stepOk_others_untouched
 #print axioms CnbVerif.C01.stepOk_writers
+#print axioms CnbVerif.C01.rejected_metadata_write_changes_nothing
